@@ -553,10 +553,23 @@ def _reductions(ctx, t_end):
         if bad_root:
             roots.add(rng.choice([1, -1]) * (max(b._succ) + rng.randint(1, 9)))
         s.op(0, 'set_roots', ','.join(map(str, sorted(roots))))
+        dyn = rng.random() < 0.3
+        if dyn:
+            # dynamic reordering enabled in the source (threshold low): `reduction` is decorated
+            # with `_try_to_reorder`, but every `find_or_add` is a call on the NEW manager
+            s.op(0, 'configure', 1)
+            s.op(0, 'set_last_len', rng.randint(1, 3))
         before = implmod.dump_state(b)
         tt_src = TT(b, names)
         src_fns = {tt_src.of(u) for u in b._succ}
         ans = s.op(0, 'reduction', 1)
+        if dyn:
+            after_dyn = implmod.dump_state(b)
+            s.op(0, 'configure', 0)
+            if after_dyn != before:
+                ctx.violation('BDD.reduction() with reordering enabled changed the manager', dict(
+                    lines=list(s.lines), tags=dict(call='reduction', symptom='dyn')))
+            before = implmod.dump_state(b)
         ctx.evaluations += 1
         bad = []
         if implmod.dump_state(b) != before:
